@@ -36,6 +36,7 @@ theorem WF.invS {s : State} (hw : WF s) : InvS s where
   nestOk := hw.inv.nestOk
   anonBound := hw.inv.anonBound
   repBound := hw.inv.repBound
+  ownCOk := hw.inv.ownCOk
 
 /-! ### small updates -/
 
@@ -92,10 +93,10 @@ theorem wf_attach {s : State} (hw : WF s) {c v : Nat} (hc : ∀ w, s.conns c ≠
   · have := hw.held; unfold Held at *; st_simp; grind
 
 theorem wf_setConn_none {s : State} (hw : WF s) {c : Nat} (hc : ∀ w, s.conns c ≠ some (some w))
-    (o : Option (Option Nat)) (ho : o = none ∨ o = some none) : WF (s.setConn c o) := by
+    (o : Option (Option Nat)) (ho : (o = none ∧ ¬ OwnedC s c) ∨ o = some none) : WF (s.setConn c o) := by
   have h := hw.invS
   have hnr := not_registered h hc
-  refine ⟨InvS.inv (by rcases ho with rfl | rfl <;> invs_auto h), ?_, ?_⟩
+  refine ⟨InvS.inv (by rcases ho with ⟨rfl, hno⟩ | rfl <;> invs_auto h), ?_, ?_⟩
   · have := hw.idle; unfold Idle at *; st_simp; exact this
   · have := hw.held; unfold Held at *; st_simp; exact this
 
